@@ -1,12 +1,195 @@
 /-
-  C01 — Validate decides exactly the 2020-12 validity relation.  Property theorems only.
+  C01 — Validate decides exactly the validity relation of the Spec (draft 2020-12 and draft-07 are
+  both covered: the draft is a field of the environment).  Property theorems only; the proofs are in
+  JSV/Proofs/Refine*.lean.
 -/
-import JSV.Model.Validate
+import JSV.Proofs.Refine
+import JSV.Proofs.RefineMono
+import JSV.Proofs.RefineSpecMono
+import JSV.Proofs.RefineCheck
 namespace JSV.C01
-open JSV Go
+open JSV Go GoVal Refine
 
 /-- with no fuel the evaluator makes no statement -/
 theorem validateFuel_zero (env : VEnv) (stack : List NodeId) (i : GoVal) (s : NodeId) :
     validateFuel env 0 stack i s = .fuel := rfl
+
+/-! ## fuel -/
+
+/-- more fuel never changes a defined answer of the evaluator -/
+theorem validate_mono (env : VEnv) (n : Nat) (stack : List NodeId) (i : GoVal) (s : NodeId) :
+    validateFuel env n stack i s ⊑ validateFuel env (n + 1) stack i s :=
+  Refine.validateFuel_mono env n stack i s
+
+/-- an answer other than "out of fuel" is the answer for every larger fuel -/
+theorem validate_stable (env : VEnv) (stack : List NodeId) (i : GoVal) (s : NodeId) (n : Nat) (r : Res Anns)
+    (hr : validateFuel env n stack i s = r) (hne : r ≠ .fuel) :
+    ∀ m, n ≤ m → validateFuel env m stack i s = r := by
+  intro m hm
+  induction m with
+  | zero => have : n = 0 := by omega
+            subst this; exact hr
+  | succ m ih =>
+    by_cases h : n = m + 1
+    · subst h; exact hr
+    · have hm' : n ≤ m := by omega
+      have := ih hm'
+      rcases validate_mono env m stack i s with hf | he
+      · rw [this] at hf; exact absurd hf hne
+      · rw [← he, this]
+
+/-- the same for the Spec: defined answers are stable under more fuel -/
+theorem spec_mono (env : Spec.Env) (n : Nat) (stack : List NodeId) (s : NodeId) (j : Json) (r : Spec.R)
+    (h : Spec.evalFuel env n stack s j = some r) : Spec.evalFuel env (n + 1) stack s j = some r :=
+  Refine.evalFuel_mono env n stack s j r h
+
+theorem spec_stable (env : Spec.Env) (stack : List NodeId) (s : NodeId) (j : Json) (n : Nat) (r : Spec.R)
+    (h : Spec.evalFuel env n stack s j = some r) : ∀ m, n ≤ m → Spec.evalFuel env m stack s j = some r := by
+  intro m hm
+  induction m with
+  | zero => have : n = 0 := by omega
+            subst this; exact h
+  | succ m ih =>
+    by_cases hn : n = m + 1
+    · subst hn; exact h
+    · exact spec_mono env m stack s j r (ih (by omega))
+
+/-- the validity verdict of the Spec is stable under more fuel -/
+theorem valid_stable (env : Spec.Env) (root : NodeId) (j : Json) (n : Nat) (b : Bool)
+    (h : Spec.valid env n root j = some b) : ∀ m, n ≤ m → Spec.valid env m root j = some b := by
+  intro m hm
+  unfold Spec.valid at h ⊢
+  cases he : Spec.evalFuel env n [] root j with
+  | none => rw [he] at h; simp at h
+  | some r => rw [he] at h; rw [spec_stable env [] root j n r he m hm]; exact h
+
+/-! ## the refinement -/
+
+/-- **Refinement** (both drafts).  Whenever the Spec decides with some fuel, the evaluator, run with the same fuel
+    on the Go value `encoding/json` produces for the instance, returns an error iff the Spec says invalid, and
+    otherwise returns annotations that denote exactly the Spec's evaluated properties and items.
+    `hstack`: the schemas on the caller's stack have resolution records (true of every stack `Validate` builds;
+    needed because `$dynamicRef` dereferences the records of the stack entries). -/
+theorem validate_refines_spec (env : VEnv) (hwf : EnvWF env) (hst : StoreWF env.st) :
+    ∀ (fuel : Nat) (stack : List NodeId), (∀ x, x ∈ stack → (env.info? x).isSome = true) →
+      ∀ (s : NodeId) (j : Json), Json.WF j = true →
+      Rel j (Spec.evalFuel (specEnvOf env) fuel stack s j)
+            (Go.validateFuel env fuel stack (GoVal.ofJson j) s) :=
+  Refine.validate_refines_spec env hwf hst
+
+/-- at the entry point: the empty stack -/
+theorem validate_refines_spec_root (env : VEnv) (hwf : EnvWF env) (hst : StoreWF env.st)
+    (fuel : Nat) (s : NodeId) (j : Json) (hj : Json.WF j = true) :
+    Rel j (Spec.evalFuel (specEnvOf env) fuel [] s j) (Go.validateFuel env fuel [] (GoVal.ofJson j) s) :=
+  Refine.validate_refines_spec_root env hwf hst fuel s j hj
+
+/-- the instance may arrive wrapped in interfaces / pointers: only the stripped value matters -/
+theorem validate_refines_spec_wrapped (env : VEnv) (hwf : EnvWF env) (hst : StoreWF env.st)
+    (fuel : Nat) (s : NodeId) (j : Json) (hj : Json.WF j = true) (g : GoVal) (hg : GoVal.strip g = GoVal.ofJson j) :
+    Rel j (Spec.evalFuel (specEnvOf env) fuel [] s j) (Go.validateFuel env fuel [] g s) :=
+  Refine.validateFuel_refines env hwf hst fuel [] (fun _ h => nomatch h) s j g hj hg
+
+/-- **C01.**  Whenever the Spec decides, `Validate` returns nil exactly when the instance is valid. -/
+theorem C01_main (env : VEnv) (hwf : EnvWF env) (hst : StoreWF env.st) (fuel : Nat) (root : NodeId) (j : Json)
+    (hj : Json.WF j = true) (b : Bool)
+    (hs : Spec.valid (specEnvOf env) fuel root j = some b)
+    (supported : List String) (rn : Node) (hroot : env.st.get? root = some rn)
+    (hsup : supported.contains rn.schema = true) :
+    Go.validate env supported fuel root (GoVal.ofJson j) = if b then .ok () else .err := by
+  unfold Go.validate
+  rw [hroot]
+  simp only [hsup, Bool.not_true, Bool.false_eq_true, if_false]
+  have hrel := validate_refines_spec_root env hwf hst fuel root j hj
+  unfold Spec.valid at hs
+  cases he : Spec.evalFuel (specEnvOf env) fuel [] root j with
+  | none => rw [he] at hs; simp at hs
+  | some r =>
+    rw [he] at hs hrel
+    simp only [Option.map_some, Option.some.injEq] at hs
+    cases r with
+    | none => simp only [Rel] at hrel; rw [hrel]; subst hs; rfl
+    | some ev => obtain ⟨a, ha, _⟩ := hrel; rw [ha]; subst hs; rfl
+
+/-- … and for every larger fuel -/
+theorem C01_main_stable (env : VEnv) (hwf : EnvWF env) (hst : StoreWF env.st) (fuel : Nat) (root : NodeId) (j : Json)
+    (hj : Json.WF j = true) (b : Bool)
+    (hs : Spec.valid (specEnvOf env) fuel root j = some b)
+    (supported : List String) (rn : Node) (hroot : env.st.get? root = some rn)
+    (hsup : supported.contains rn.schema = true) (m : Nat) (hm : fuel ≤ m) :
+    Go.validate env supported m root (GoVal.ofJson j) = if b then .ok () else .err :=
+  C01_main env hwf hst m root j hj b (valid_stable _ root j fuel b hs m hm) supported rn hroot hsup
+
+/-- an unsupported `$schema` is refused before any evaluation -/
+theorem unsupported_schema (env : VEnv) (supported : List String) (fuel : Nat) (root : NodeId) (inst : GoVal)
+    (rn : Node) (hroot : env.st.get? root = some rn) (hsup : supported.contains rn.schema = false) :
+    Go.validate env supported fuel root inst = .err := by
+  unfold Go.validate; rw [hroot]; simp only [hsup, Bool.not_false, if_true]
+
+/-! ## The hypotheses are satisfiable on a non-trivial environment
+
+`{"allOf":[{"properties":{"a":{}}}],"unevaluatedProperties":false}` as a five-node store
+(`false` is unmarshalled to `{"not":{}}`). -/
+
+def exStore : Store := #[
+  { allOf := some [1], unevaluatedProperties := some 3 },
+  { properties := some [("a", 2)] },
+  {},
+  { not := some 4 },
+  {} ]
+
+def exInfos : List (NodeId × Info) :=
+  [(0, { path := "root", base := some 0 }), (1, { path := "/allOf/0", base := some 0 }),
+   (2, { path := "/allOf/0/properties/a", base := some 0 }), (3, { path := "/unevaluatedProperties", base := some 0 }),
+   (4, { path := "/unevaluatedProperties/not", base := some 0 })]
+
+def exEnv : VEnv :=
+  { st := exStore, draft := .d2020, infos := exInfos, reMatch := fun _ _ => false, hash := fun _ => 0 }
+
+theorem exEnv_wf : EnvWF exEnv := EnvWF_of_checks exEnv (by decide) (by decide) (fun _ _ _ => rfl)
+theorem exEnv_store : StoreWF exEnv.st := StoreWF_of_check _ (by decide)
+
+def exGood : Json := .obj [("a", .str "x")]
+def exBad : Json := .obj [("a", .str "x"), ("b", .null)]
+
+example : Json.WF exGood = true := by decide
+example : Json.WF exBad = true := by decide
+example : Spec.valid (specEnvOf exEnv) 3 0 exGood = some true := by decide
+example : Spec.valid (specEnvOf exEnv) 3 0 exBad = some false := by decide
+/-- with too little fuel the Spec makes no statement (and the theorem none either) -/
+example : Spec.valid (specEnvOf exEnv) 2 0 exGood = none := by decide
+
+/-- `C01_main` applied: the valid instance -/
+example : Go.validate exEnv [""] 3 0 (GoVal.ofJson exGood) = .ok () :=
+  C01_main exEnv exEnv_wf exEnv_store 3 0 exGood (by decide) true (by decide) [""] _ rfl (by decide)
+/-- `C01_main` applied: `b` is not evaluated by the allOf branch, so `unevaluatedProperties: false` rejects -/
+example : Go.validate exEnv [""] 3 0 (GoVal.ofJson exBad) = .err :=
+  C01_main exEnv exEnv_wf exEnv_store 3 0 exBad (by decide) false (by decide) [""] _ rfl (by decide)
+/-- the same by running the model -/
+example : Go.validate exEnv [""] 3 0 (GoVal.ofJson exGood) = .ok () := by decide
+example : Go.validate exEnv [""] 3 0 (GoVal.ofJson exBad) = .err := by decide
+/-- `C01_main_stable`, `validate_stable` applied -/
+example : Go.validate exEnv [""] 10 0 (GoVal.ofJson exBad) = .err :=
+  C01_main_stable exEnv exEnv_wf exEnv_store 3 0 exBad (by decide) false (by decide) [""] _ rfl (by decide) 10
+    (by decide)
+example : Spec.valid (specEnvOf exEnv) 7 0 exGood = some true :=
+  valid_stable _ 0 exGood 3 true (by decide) 7 (by decide)
+
+/-! ## why the stack hypothesis of `validate_refines_spec` is needed
+
+A caller's stack naming a schema without resolution record makes `$dynamicRef` panic (nil dereference
+in the stack walk), while the Spec's scope walk skips such an entry.  `Validate` never builds such a stack. -/
+
+def cexEnv : VEnv :=
+  { st := #[{ dynamicRef := "#a" }, {}], draft := .d2020,
+    infos := [(0, { base := some 0, resolvedDynamicRef := some 1, dynamicRefAnchor := "a" }), (1, { base := some 0 })],
+    reMatch := fun _ _ => false, hash := fun _ => 0 }
+
+example : EnvWF cexEnv := EnvWF_of_checks cexEnv (by decide) (by decide) (fun _ _ _ => rfl)
+example : StoreWF cexEnv.st := StoreWF_of_check _ (by decide)
+example : (Spec.evalFuel (specEnvOf cexEnv) 2 [7] 0 .null).map Option.isSome = some true := by decide
+example : (Go.validateFuel cexEnv 2 [7] (GoVal.ofJson .null) 0).verdict = none := by decide
+example : (Go.validateFuel cexEnv 2 [7] (GoVal.ofJson .null) 0).isOk = false := by decide
+/-- with a well-formed stack the two agree, as the theorem says -/
+example : (Go.validateFuel cexEnv 2 [0] (GoVal.ofJson .null) 0).isOk = true := by decide
 
 end JSV.C01
